@@ -266,10 +266,11 @@ Section Protocol.
     if m_skip t || has_dyn MSkip i dyn || memN i desel then mkTres OSkip w []
     else if existsb (fun b => b) (m_skipif t) then mkTres OSkip w []
     else if has_dyn MAncFailed i dyn then mkTres OSkipPrevFailed w []
-    (* persist.pytask_execute_task_setup *)
+    (* persist.pytask_execute_task_setup: skipped for a task below one that would be executed
+       (dry run), which execute.pytask_execute_task_setup then announces as would be executed *)
+    else if has_dyn MWould i dyn then mkTres OWould w []
     else if pf then mkTres OPersist (if dry_run c then w else record_states E w t) []   (* a dry run records nothing *)
     (* execute.pytask_execute_task_setup *)
-    else if has_dyn MWould i dyn then mkTres OWould w []
     else
       let verdict :=
         if force c then inr true
